@@ -11,7 +11,7 @@ pub struct C09Oracle {
 }
 
 fn close(a: f64, b: f64) -> bool {
-    (a - b).abs() <= 1e-9 * a.abs().max(b.abs()).max(1.0)
+    a == b || (a - b).abs() <= 1e-9 * a.abs().max(b.abs()).max(1.0)
 }
 
 pub fn c09_tags(b: &Base) -> Vec<String> {
@@ -320,7 +320,7 @@ pub fn run(tier: &str, rec: &Recorder) -> RunOutput {
     let start = Instant::now();
     let mut out = RunOutput::new("model_checking");
     let cap = wall_cap_s(tier);
-    let stages: Vec<(&'static str, usize, bool)> = if tier == "quick" { vec![("w2", 5, true), ("w3s", 3, true), ("nan2", 5, false), ("w2@alias", 4, true), ("w2b", 3, true), ("mix2", 3, true)] } else { vec![("w2", 6, true), ("w3", 4, true), ("w3s", 5, true), ("nan3", 5, false), ("w2@alias", 6, true), ("nan3@alias", 4, false), ("w2b", 4, true), ("mix2", 4, true)] };
+    let stages: Vec<(&'static str, usize, bool)> = if tier == "quick" { vec![("w2", 5, true), ("w3s", 3, true), ("nan2", 5, false), ("w2@alias", 4, true), ("w2b", 3, true), ("mix2", 3, true), ("winf2", 3, true)] } else { vec![("w2", 6, true), ("w3", 4, true), ("w3s", 5, true), ("nan3", 5, false), ("w2@alias", 6, true), ("nan3@alias", 4, false), ("w2b", 4, true), ("mix2", 4, true), ("winf2", 3, true)] };
     let n_st = stages.len() as f64;
     let mut notes = vec![];
     let mut ex = true;
